@@ -15,6 +15,20 @@ PROPS = {
                 scope='panic-freedom (and termination) of cursor decoding for ANY cursor string (PaginationCursor::decode hex loop and field unpacking, hex_decode) and of the varint decoder for any bytes',
                 outside='search() as a whole: regex/wildcard compilation, scripts, aggregations, highlight (see C21), edit distance, prefix slicing, the leaf-index asserts in wand.rs',
                 level_text='Partial: proves that the cursor-decoding functions and the varint decoder cannot panic on any input; says nothing about the rest of search().'),
+    'C17': dict(units=['U1', 'U2', 'U5', 'U8'], kani=[], level='proof',
+                scope='write-ahead log: recovery returns exactly the intact checksum-valid prefix for ANY byte content, a tail torn at any byte contributes nothing, never a panic or an error; segment files: terms-file header parsing cannot panic before the CRC comparison and a mismatch is an error; docstore length guard rejects oversized lengths before allocating; fast-field primitive readers are bounds-checked',
+                outside='that CRC-32 detects a given alteration (assumed property of the polynomial), verify_checksums (closure over dyn Storage), post-checksum parsers (read_terms loop, read_fields), MANIFEST.json (carries no checksum)'),
+    'C14': dict(units=['U4'], kani=[], level='other',
+                scope='the refusal guard only: ensure_compact_safe returns Ok exactly when every resolved field with indexed or fast data is stored',
+                outside='that re-ingesting stored JSON reproduces every posting, fast value and nested binding (end-to-end equivalence over serde_json); that compact() calls the guard before changing anything; Schema::resolved_fields itself',
+                level_text='Partial: proves the refusal guard of compaction; the equivalence of contents before/after compaction is outside this technique.'),
+    'C21': dict(units=['U6'], kani=[], level='proof',
+                scope='the fragment window of highlight_fragments: every pushed fragment is a real (non-empty) slice of the text that contains the whole match and is at most fragment_size bytes, at most number_of_fragments fragments, for any text incl. multi-byte characters, relative to the assumed regex/str contracts',
+                outside='regex construction, tag insertion by replace_all, materialize_hit / snippet assembly'),
+    'C20': dict(units=['U13'], kani=[], level='other',
+                scope='"every explanation\'s final score equals its hit\'s score": the explain fill loop of search() and the per-hit rescore update leave every hit with an explanation whose final_score is the hit score, without changing scores or keys',
+                outside='the first sentence of the property (explain/profile flags change nothing) is relational over two executions of search() and is outside; materialize_hit copying score/explanation is read, not verified',
+                level_text='Partial: proves explanation/score agreement on the two code sites that write explanations; the flag-independence of results is outside this technique.'),
 }
 
 COMMON_TRUSTED = [
